@@ -194,12 +194,28 @@ def run_cache(case, ctx, out):
     reference = strip_header(plain.output)
 
     def body(txt):
-        return txt.split('\nBOUNDARY_CONDITION')[0]
+        '''The volumes with every surface number replaced by what the surface
+        is, and the compositions: the geometry whatever the numbering.'''
+        from .. import t4file
+        t4 = t4file.parse(txt)
+        defs = {sid: f'{sur.type} {sur.params} {sur.tr}'
+                for sid, sur in t4.surfs.items()}
+        vols = []
+        for vid in t4.volu_order:
+            vol = t4.volus[vid]
+            vols.append((vid, tuple(sorted(defs.get(k, k) for k in vol.plus)),
+                         tuple(sorted(defs.get(k, k) for k in vol.minus)),
+                         str(vol.op), vol.fictive))
+        return vols, str(t4.compositions), str(t4.geomcomp)
     for label, got in (('first', outputs[0]), ('second', outputs[1])):
         if got != reference:
             mech = None
             if label == 'second' and body(got) == body(reference) and \
                     got.count('ALL_COMPLETE') < reference.count('ALL_COMPLETE'):
+                # the run that reads the cache no longer knows which of the
+                # surfaces generated by a TRCL are flagged: their entries are
+                # missing (and a flagged copy is not merged with its flagged
+                # original, which changes numbers but not the geometry)
                 mech = 'cache-second-run-drops-boundary-conditions'
             out.violation('cache-dependent-output', f'{kind}: the {label} '
                           'conversion with --cache differs from the '
@@ -260,6 +276,40 @@ def state_snapshot():
                         snap[f'{key}.{cattr}'] = _fp(cval)
             else:
                 snap[key] = _fp(val)
+    snap.update(interpreter_state())
+    return snap
+
+
+def interpreter_state():
+    '''Settings of the interpreter and of the libraries the converter uses
+    that outlive a conversion if somebody changes them: a later conversion in
+    the same process would run under other conditions than a fresh one.'''
+    import decimal
+    import locale
+    import warnings
+    import numpy as np
+    snap = {
+        'interpreter.recursionlimit': repr(sys.getrecursionlimit()),
+        'interpreter.cwd': os.getcwd(),
+        'interpreter.environ': _fp(dict(os.environ)),
+        'interpreter.sys.path': _fp(list(sys.path)),
+        'interpreter.locale': repr(locale.getlocale()),
+        'interpreter.decimal.prec': repr(decimal.getcontext().prec),
+        'interpreter.warnings.filters': hashlib.sha1(
+            repr([(f[0], str(f[1]), getattr(f[2], '__name__', f[2]),
+                   str(f[3]), f[4]) for f in warnings.filters]
+                 ).encode()).hexdigest(),
+        'numpy.seterr': _fp(dict(np.geterr())),
+        'numpy.printoptions': _fp({k: v for k, v in
+                                   np.get_printoptions().items()
+                                   if isinstance(v, (int, float, str, bool,
+                                                     type(None)))}),
+    }
+    try:
+        snap['interpreter.int_max_str_digits'] = repr(
+            sys.get_int_max_str_digits())
+    except AttributeError:
+        pass
     return snap
 
 
@@ -310,6 +360,25 @@ def draw_decks(case):
             cel.rho = form
         return deck
     makers.append(density_variants)
+
+    def long_card():
+        # one cell card with well over a hundred entries (the usual
+        # "everything else" cell of a deck with many cells)
+        from . import c01
+        sub = _Sub(rng, 'many-operands', 0, case.tier, case.seed)
+        deck = c01.build_many(sub, count=rng.choice([130, 150, 180]))
+        return deck
+
+    def deep_nesting():
+        # parentheses nested about twenty levels deep
+        deck = gen_cells.build(rng, 'inter')
+        cel = next(c for c in deck.cells if not deck.importance_zero(c))
+        geom = cel.geom
+        for _ in range(rng.randint(12, 22)):
+            geom = ('g', geom)
+        cel.geom = geom
+        return deck
+    makers += [long_card, deep_nesting]
     from .c13 import upstream_decks
     ups = [d for d in upstream_decks() if len(d[1]) < 4000]
 
@@ -325,6 +394,8 @@ def draw_decks(case):
     makers.append(upstream)
     decks = []
     forced = [density_variants]
+    if case.index % 4 == 1:
+        forced = [deep_nesting, long_card, density_variants]
     for _ in range(rng.randint(3, 6)):
         deck = (forced.pop() if forced else rng.choice(makers))()
         opts = list(deck.cli) + (c08.random_options(rng)
